@@ -9,6 +9,7 @@
 -/
 import Honeycomb.Model.Grisubal
 import Honeycomb.Model.Kernels.VertexInsertion
+import Honeycomb.Model.Clip
 
 namespace HC
 
@@ -32,5 +33,77 @@ def stepsTwoThree (m : Map Val) (slots : List Slot) (keys : List Nat) : List Nat
   let res := intersectionIds slots.length gs sl
   let (o, m2) := run (insertIntersections m1.n (gs.zip sl)) m1
   (res, o, m2)
+
+/-! ## step 5: `insert_edges_in_map` (`routines/insert_new_edges.rs`) -/
+
+/-- `build_base_edge`: `start → d_new → end` on one side, `b0(end) → b2_d_new → b1(start)` on the other; every
+    `force_link` / `force_unlink` is `.unwrap()`ed (an error of the model program = a panic of the kernel) -/
+def buildBaseEdge (start stop dNew b2dNew : Nat) : P Val Unit := do
+  let b1s ← rB 1 start
+  let b0e ← rB 0 stop
+  oneUnlinkCore start
+  oneUnlinkCore b0e
+  iLinkCore 2 dNew b2dNew
+  oneLinkCore start dNew
+  oneLinkCore b2dNew b1s
+  oneLinkCore dNew stop
+  oneLinkCore b0e b2dNew
+
+/-- "replace placeholder vertices": walk `β1` from the first inserted dart, write the point of interest (and, when the map
+    has the anchor storages, `VertexAnchor::Node(i)`, `i` the INDEX OF THE EDGE) under the vertex identifier -/
+def replaceInter (n : Nat) (hasAnchors : Bool) (i : Nat) : Nat → List Pt → P Val Unit
+  | _, [] => pure ()
+  | d, v :: vs => do
+      let vid ← vertexId2 n d
+      let _ ← writeVtx vid (.pt v.1 v.2 0)
+      (if hasAnchors then do
+        let _ ← rA sVA vid
+        wA sVA vid (some (.tm (.leaf (4 * i))))
+       else pure ())
+      let d' ← rB 1 d
+      replaceInter n hasAnchors i d' vs
+
+/-- `mark_boundary`: from `β1(start)` to `end`, `Left` on the dart, `Right` on its β2 image; on a fuel (`retry` = the
+    walk never meets `end`) -/
+def markBoundary (stop : Nat) : Nat → Nat → P Val Unit
+  | 0, _ => Prog.retry
+  | f + 1, d =>
+      if d = stop then pure () else do
+        let _ ← rA sBd d
+        wA sBd d (some bdLeft)
+        let d2 ← rB 2 d
+        let _ ← rA sBd d2
+        wA sBd d2 (some bdRight)
+        let d' ← rB 1 d
+        markBoundary stop f d'
+
+/-- one iteration of the loop of `insert_edges_in_map`: edge number `i`, its block `slice` of `2 + 2·|inter|` darts -/
+def insertOneEdge (n : Nat) (hasAnchors : Bool) (i : Nat) (e : MEdge) (slice : List Nat) : P Val Unit := do
+  let dNew := slice.getD 0 0
+  let b2dNew := slice.getD 1 0
+  buildBaseEdge e.start e.stop dNew b2dNew
+  (if e.inter.isEmpty then pure () else do
+    let eid ← edgeId2 dNew
+    insertVerticesOnEdge n eid (slice.drop 2) (e.inter.map fun _ => (1 / 2 : Rat))
+    let d ← rB 1 eid
+    replaceInter n hasAnchors i d e.inter)
+  let d0 ← rB 1 e.start
+  markBoundary e.stop n d0
+
+def insertEdgesFrom (n : Nat) (hasAnchors : Bool) : Nat → List (MEdge × List Nat) → P Val Unit
+  | _, [] => pure ()
+  | i, x :: rest => do
+      insertOneEdge n hasAnchors i x.1 x.2
+      insertEdgesFrom n hasAnchors (i + 1) rest
+
+/-- `build_workload`: consecutive blocks of `2 + 2·|intermediates|` darts -/
+def edgeSlices : Nat → List MEdge → List (List Nat)
+  | _, [] => []
+  | base, e :: es => List.range' base (2 + 2 * e.inter.length) :: edgeSlices (base + (2 + 2 * e.inter.length)) es
+
+/-- `insert_edges_in_map(cmap, edges)` -/
+def stepFive (m : Map Val) (hasAnchors : Bool) (edges : List MEdge) : Out Err Unit × Map Val :=
+  let (base, m1) := m.addFreeDarts ((edges.map fun e => 2 + 2 * e.inter.length).sum)
+  run (insertEdgesFrom m1.n hasAnchors 0 (edges.zip (edgeSlices base edges))) m1
 
 end HC
